@@ -349,11 +349,14 @@ class DocutilsRenderer(RendererProtocol):
                 self._level_to_section = {
                     level: temp_root_node for level in self._level_to_section
                 }
-            yield
-            self._heading_offset = current_heading_offset
-            if temp_root_node is not None:
-                self.md_env["temp_root_node"] = current_root_node
-                self._level_to_section = current_level_to_section
+            try:
+                yield
+            finally:
+                # (also when a directive fails while parsing its content)
+                self._heading_offset = current_heading_offset
+                if temp_root_node is not None:
+                    self.md_env["temp_root_node"] = current_root_node
+                    self._level_to_section = current_level_to_section
 
         with _restore():
             self._render_tokens(tokens)
@@ -367,8 +370,10 @@ class DocutilsRenderer(RendererProtocol):
             self.current_node.append(node)
         current_node = self.current_node
         self.current_node = node
-        yield
-        self.current_node = current_node
+        try:
+            yield
+        finally:
+            self.current_node = current_node
 
     def render_children(self, token: SyntaxTreeNode) -> None:
         """Render the children of a token."""
@@ -1896,6 +1901,19 @@ class DocutilsRenderer(RendererProtocol):
         except MockingError as exc:
             error_msg = self.reporter.error(
                 f"Directive '{name}' cannot be mocked: {exc.__class__.__name__}: {exc}",
+                nodes.literal_block(content, content),
+                line=position,
+            )
+            return [error_msg]
+        except SystemMessage:
+            # the reporter's ``halt_level`` was reached inside the directive
+            raise
+        except Exception as exc:
+            # any other failure of the directive is reported, not raised:
+            # e.g. docutils' ``Figure.run`` indexes the result of parsing a
+            # non-empty body, which can be empty (blank lines, a definition)
+            error_msg = self.reporter.error(
+                f"Directive '{name}' failed: {exc.__class__.__name__}: {exc}",
                 nodes.literal_block(content, content),
                 line=position,
             )
